@@ -221,6 +221,20 @@ def check(ctx, stmts, workload="gen"):
         um = ("MY_USER_MODEL", "SLBKPOLE2")
         ctx.hit("user-model-registered")
         wit["user_models"] = list(um)
+    if ctx.rng.random() < 0.2:
+        # earlier in the process another text was refused by the grammar half-way down (a line without its model) -- after Define statements for the very
+        # words this file leaves undefined, and for some it defines differently; same registered models
+        words = sorted({pw.lstrip("-+") for st in stmts if st["k"] == "Decay" for ln in st["lines"] for pw in ln["params"] if not L.isnum(pw) and L.label_ok(pw.lstrip("-+") or "x")})[:8]
+        names_ = [w_ for w_ in words if w_] + ["dm", "CKMgamma"]
+        bad = "".join(f"Define {w_} {0.111 * (k_ + 1):.3f}\n" for k_, w_ in enumerate(names_)) + "Decay B0sig\n1.0 K+ pi- PHSP;\n0.5 K+ K- ;\nEnddecay\n"
+        ctx.hit("parse-after-a-text-the-grammar-refused-half-way")
+        wit["earlier_refused_text"] = bad
+        try:
+            snapshot.make_parser(bad, None, um)
+        except Exception:  # noqa: BLE001, S110
+            pass
+        else:
+            ctx.note("refused-text-was-accepted", bad)
     ok, res = ctx.guard("parse", wit, snapshot.make_parser, text, None, um)
     if not ok:
         return
